@@ -88,6 +88,11 @@ func init() {
 				vk, _ := os.Create(filepath.Join(c.Dir, fmt.Sprintf("vk-%s-%d-%d", c.Mode, c.Depth, c.Batch)))
 				ps.VerifyingKey.WriteTo(vk)
 				vk.Close()
+				// and the whole system, for `gnark-mbu export-solidity`
+				if f, e := os.Create(filepath.Join(c.Dir, fmt.Sprintf("ps-%s-%d-%d.ps", c.Mode, c.Depth, c.Batch))); e == nil {
+					ps.WriteTo(f)
+					f.Close()
+				}
 			}
 		case "import":
 			pk := filepath.Join(c.Dir, fmt.Sprintf("pk-%s-%d-%d", c.Mode, c.Depth, c.Batch))
@@ -145,6 +150,31 @@ func init() {
 			rec["nbPublic"] = cs.GetNbPublicVariables() - 1 // gnark counts the constant ONE wire as public
 			rec["nbSecret"] = cs.GetNbSecretVariables()
 			rec["nbConstraints"] = cs.GetNbConstraints()
+		}
+		b, _ := json.Marshal(rec)
+		fmt.Println(string(b))
+	}
+	commands["art-solidity"] = func(args []string) {
+		var c struct {
+			CLI  string `json:"cli"`
+			Keys string `json:"keys"`
+			Mode string `json:"mode"`
+		}
+		loadCases(args, &c)
+		rec := map[string]interface{}{"event": "solidity", "keys": filepath.Base(c.Keys), "inputs": -1, "err": ""}
+		out, err := exec.Command(c.CLI, "export-solidity", "--keys-file", c.Keys).Output()
+		if err != nil {
+			rec["err"] = "export-solidity: " + err.Error()
+		} else {
+			m := regexp.MustCompile(`uint256\[(\d+)\] calldata input`).FindSubmatch(out)
+			if m == nil {
+				rec["err"] = "no `uint256[N] calldata input` in the exported verifier"
+			} else {
+				fmt.Sscan(string(m[1]), new(int))
+				var n int
+				fmt.Sscan(string(m[1]), &n)
+				rec["inputs"] = n
+			}
 		}
 		b, _ := json.Marshal(rec)
 		fmt.Println(string(b))
